@@ -70,6 +70,10 @@ class _VecCtor(TypeTok):
             if v.width > w or (v.width != w and self.name != "Unsigned"):
                 raise Reject(f"{self.name}[{w}] from width {v.width}")
             return BV(v.bits + (Bit("0"),) * (w - v.width), self.name)
+        if isinstance(v, str):
+            if len(v) != w or set(v) - {"0", "1"}:
+                raise Reject("string literal of wrong width")
+            return BV([Bit(c) for c in reversed(v)], self.name)
         if isinstance(v, int) and not isinstance(v, bool):
             if not 0 <= v < 2 ** w:
                 raise Reject("value out of range")
